@@ -327,6 +327,39 @@ func runC01(c *core.Check) {
 	}
 	c.Floor("resolution-order", 2)
 
+	// ---------- (3b') initialisation order: Go initialises package-level variables in declaration order (subject to
+	// dependencies); the generated file declares them in the order their loaders run, so no function body may be
+	// compiled — and thereby pull in the variables it mentions — while declarations are still being loaded
+	if lf := prog.FuncDecl("./cl", "loadFunc"); lf != nil {
+		par := parentMap(lf)
+		immediate := token.NoPos
+		n := 0
+		ast.Inspect(lf.Body, func(m ast.Node) bool {
+			call, ok := m.(*ast.CallExpr)
+			if !ok {
+				return true
+			}
+			if fn, ok := calleeObj(info, call).(*types.Func); !ok || fn.Name() != "loadFuncBody" {
+				return true
+			}
+			n++
+			deferred := false
+			for p := par[call]; p != nil; p = par[p] {
+				if _, ok := p.(*ast.FuncLit); ok {
+					deferred = true
+				}
+			}
+			if !deferred {
+				immediate = call.Pos()
+			}
+			return true
+		})
+		c.Decide(n > 0 && !immediate.IsValid(), "init-order", "loadFunc", immediate, "function bodies are compiled after all declarations were loaded (deferred through ctx.inits)",
+			"cl.loadFunc compiles the body of a plain function immediately, while the declarations of the file are still being loaded in source order: a package-level variable mentioned in that body is loaded — and emitted — at that moment, ahead of variables declared before it, and Go initialises the generated declarations in their new order")
+	} else {
+		c.Bad("anchor", "cl.loadFunc", 0, "not found")
+	}
+
 	// ---------- (3c) duplicate switch cases are rejected for exactly the constants Go rejects: goVal is go/types' goVal
 	if gtypes := prog.Pkg("go/types"); gtypes != nil {
 		xf, gf := core.FindFuncDecl(pk, "goVal"), core.FindFuncDecl(gtypes, "goVal")
